@@ -283,7 +283,9 @@ impl LayoutSpace {
         }
         t.packed = d[2] == 1;
         if d[3] == 1 {
-            let mut f = FuncS::new("v0");
+            // the same slot as the auxiliary base `InnerV` declares: with that type as first base the
+            // block is a legal re-declaration and the pointer is shared, anywhere else the type owns one
+            let mut f = FuncS::new("v");
             f.recv = Recv::Const;
             t.vft = Some(VftS { size: None, funcs: vec![f] });
         }
